@@ -347,6 +347,8 @@ class C06(vlib.Spec):
         "synchronous hand-over of tick events)",
         "pbgen-regenerated protobuf Go code (commonv1.ResourceOpts)",
         "directory-name order = start order (segment ids are the decimal wall-clock reading; modelled as the truncated reading)",
+        "export hooks hooks/banyand/{stream,measure}/zz_verif_seg.go (write-queue tsTable with only the introducer loop running, "
+        "real mergeMemParts); this seam is checked by the oracle only, it has no Lean model",
     ]
     assumptions = [
         "zone transitions lie on whole seconds; float64 arithmetic of Duration.Hours()+12 is exact for whole-second offsets",
@@ -359,11 +361,19 @@ class C06(vlib.Spec):
             "NY/Lord_Howe/Apia/London plus fixed offsets, rules {HOUR,DAY} x 1..7, split into streams outside (std.fixed/day/hsafe) and "
             "inside (std.f6/f6b) the known classes; hist.*: 6-15 op histories on a real OpenTSDB: arrival orders past/future/boundary "
             "(hist.order), legacy layouts on-grid/off-grid/with gaps (hist.legacy), interval decrease + reopen with the long segment newest/oldest/middle (hist.shrink), rotation ticks (hist.tick), interval changes, "
-            "reopen with probability 1/4, selects with all flag combinations; non-trivial = distinct case")
+            "reopen with probability 1/4, selects with all flag combinations; wq.stream/wq.measure: one flusher round of the real "
+            "liaison write queue over mem parts tagged by segment window in all shapes of 1-3 windows x 1-3 parts (oracle only: no part "
+            "spans two windows, rows in = rows out); non-trivial = distinct case")
 
     def cases(self, rng, n):
         n_hist = max(20, n // 16)
-        return std_cases(rng, n - n_hist) + hist_cases(rng, n_hist)
+        n_wq = max(78, n // 100)
+        return std_cases(rng, n - n_hist - n_wq) + L.wq_cases(rng, n_wq) + hist_cases(rng, n_hist)
+
+    def compare(self, line, go_out, lean_out):
+        if line.startswith("wq"):
+            return True  # oracle only: the write-queue flusher has no Lean model
+        return go_out == lean_out
 
     def __init__(self):
         self.stats = {}
